@@ -233,8 +233,8 @@ def drive : List String → String
   | "clife" :: acts =>
     let parse (a : String) : Option ClientAct :=
       if a == "cok" then some .connectOk else if a == "cref" || a == "crefs" || a == "withref" || a == "ccancel" then some .connectRefused
-      else if a == "withop" then some (.withBody false) else if a == "op" then some .opOk
-      else if a == "opx" || a == "opeof" then some .opRaises else if a == "disc" then some .disconnect else if a == "with" then some (.withBody false)
+      else if a == "withop" then some (.withBody false) else if a == "op" || a == "opdown" || a == "opchat" then some .opOk
+      else if a == "opx" || a == "opeof" || a == "opeofdown" then some .opRaises else if a == "disc" then some .disconnect else if a == "with" then some (.withBody false)
       else if a.startsWith "withx" then some (.withBody true)
       else if a.startsWith "o:" then some .foreign      -- o:cok, o:op, o:disc, …: another client object acts
       else none     -- withx, withx:TimeoutError, …: whatever the body raises
